@@ -49,7 +49,7 @@ CHECKS["C06"] = dict(
     text="Generated 2-4-D hierarchical models over the non-negative families with every conditional_on structure; points in bulk and tails; row/list/array/integer input forms. "
          "model.pdf equals the reference factorisation (rtol 1e-9) and integrates to 1 (nested Gauss-Legendre, 1e-6); model.cdf, marginal_pdf and marginal_cdf equal ancestor-chain "
          "quadrature references that use the conditional cdf/pdf formulas rather than nquad of the joint pdf; marginal_icdf is exact for unconditional variables and within the "
-         "order-statistic Beta interval otherwise. Exploration; the number of cdf/marginal points is bounded by the implementation's own cost (seconds to minutes per point).",
+         "order-statistic Beta interval otherwise (called without random_state and with int seeds incl. 0 and 1). Exploration; the number of cdf/marginal points is bounded by the implementation's own cost (seconds to minutes per point).",
     note="Reference formulas decided by C05; bounded dependence shapes only (virocon integrates to infinity, parameters must stay admissible for every x>=0); 3-D cdf only in the thorough tier.",
     design="7/C06",
 )
@@ -83,8 +83,9 @@ CHECKS["C12"] = dict(
     technique="property-based testing (Hypothesis): likelihood-dominance oracle (fit vs start vs generating parameters) and scale metamorphic relation; statistical known findings guarded by incidence limits",
     text="Generated (family, regular generating parameters, n 100-5000, seed, default or user start, scale factor). The harness' log-likelihood of the data under the fitted instance must not be "
          "below the start nor the generating parameters (tolerance 1e-6|ll|+1e-2); parameters finite and admissible; c*data must give c-scaled location/scale estimates (parameter-wise for "
-         "Normal, LogNormal, LogNormalNormFit, 2-parameter Weibull; through the fitted law for ridge families in the regular MLE regime). Four recorded known findings (optimiser stall of "
-         "3-parameter Weibull / loc-free scipy gamma / far user starts of the generalised gamma; LogNormalNormFit is a moment estimator) are reported as KNOWN-FINDING and their incidence is bounded.",
+         "Normal, LogNormal, LogNormalNormFit, 2-parameter Weibull; through the fitted law for ridge families in the regular MLE regime). a second fit of the same data must not lose likelihood. Families: 8 native ones incl. 2-parameter Weibull, "
+         "scipy-declared gamma, Gumbel, Rayleigh and genextreme. Five recorded known findings (optimiser stall of 3-parameter Weibull / scipy-declared laws with a free location or parameter-dependent support / "
+         "far user starts of the generalised gamma and exponentiated Weibull; LogNormalNormFit is a moment estimator; support excluding observations) are reported as KNOWN-FINDING and their incidence is bounded (RATE_LIMITS).",
     note="Says nothing about global optimality beyond the alternatives tried; equivariance of location-free families only where shape >= 1.2 (bounded likelihood).",
     design="7/C12",
 )
@@ -145,7 +146,7 @@ CHECKS["C17"] = dict(
     text="Design conditions: IFORM/ISORM/direct-sampling contours of generated 2-D models (incl. negative ordinates) and random star-shaped non-convex polygons (5-60 vertices), steps None/int/explicit "
          "lists partly outside the range, both swap_axis values: every returned row must be (requested abscissa, largest exact crossing ordinate), abscissae without crossing omitted, order kept, default "
          "steps as documented, swap_axis equivalent to exchanging columns, contour untouched. intersection(): random polyline pairs (walks, graphs, loops; 2-40 segments) in general position must return "
-         "exactly the exact crossing set.",
+         "exactly the exact crossing set. Long contours (parts design_large / intersection_large): polygons, IFORM contours and polylines of 100-1500 vertices (incl. 255..258, 511..513, 720, 1024, 1025) probed inside individual edges, among them the edges around every multiple of 64 (block borders of chunked searches); exact arithmetic only for the edges a float pre-filter selects.",
     note="General position by construction (abscissae never on a vertex; no shared vertices / collinear overlaps); tolerance 1e-9 of the extent.",
     design="7/C17",
 )
@@ -173,14 +174,14 @@ CHECKS["C19"] = dict(
     text="Pool of live models (generated 2-D and 3-D models, a fitted model from one of the six predefined getters incl. the two TransformedModels) and histories of <= 6 (quick) / <= 10 (thorough) operations "
          "out of 17 evaluation / contour / plotting / saving entry points and 4 fitting operations. After every step: deep structural snapshots of all models not being fitted are unchanged, caller-owned "
          "arrays (handed over read-only) are bit-identical, every deterministic operation executed twice returns identical results, ConditionalDistribution.fit leaves its template untouched and uses distinct "
-         "per-interval copies, two calls of a predefined getter share no mutable object and fitting one leaves the other unchanged.",
-    note="Bounded history length; Monte-Carlo operations are made deterministic by seeding numpy's global RNG before the call.",
+         "per-interval copies, two calls of a predefined getter share no mutable object and fitting one leaves the other unchanged. Seeded TransformedModels are evaluated the way IFORMContour does (IFORM contour, marginal_icdf with model.random_state); snapshots include the state of numpy Generators stored in a model.",
+    note="Bounded history length; Monte-Carlo operations without a seed argument are made deterministic by seeding numpy's global RNG before the call; repeatability judged at rtol 1e-10 (numpy SIMD last-bit nondeterminism).",
     design="7/C19",
 )
 CHECKS["C16"] = dict(
     technique="property-based testing (Hypothesis): round trips, finite-difference differential for the Jacobian, differential against an independently derived push-forward density, and distribution-free (DKW / Beta order-statistic / Hoeffding) bounds for every Monte-Carlo quantity against the exact conditional law",
     text="Six closed-form transformations and the two predefined (transform, inverse, jacobian) triples over (1e-3,1e2)^4; Windmeier / non-zero EW Hs-steepness structures with generated coefficients: "
-         "TransformedModel.pdf == f_hs(h) f_S(c h/t^2|h) 2 c h/t^3 and integrates to 1, cdf == exact 1-D integral, empirical_cdf within Hoeffding, draw_sample == inverse(base sample) under the same seed; "
+         "TransformedModel.pdf == f_hs(h) f_S(c h/t^2|h) 2 c h/t^3 and integrates to 1, cdf == exact 1-D integral, empirical_cdf within Hoeffding, draw_sample == inverse(base sample) under the same seed (global RNG and int random_state incl. 0 and 1; the seeded sample is reproducible and its joint cdf matches the exact push-forward cdf within Hoeffding); "
          "conditional_sample / conditional_cdf / conditional_icdf of Tz|Hs and Hs|Tz at conditioning quantiles 0.002 .. 1-1e-5 against the exact conditional law incl. tail mass beyond the extreme draws; "
          "IFORM contours of the transformed model inside order-statistic intervals in probability space and bit-reproducible under random_state.",
     note="IFORM cases bounded to alpha >= 1e-3, precision_factor <= 0.3, 8 (quick) / 64 (thorough) contours - a resource bound of the implementation (up to 1e7 uniforms per point).",
